@@ -97,4 +97,153 @@ theorem move_effect (vt : VTState) (hw : Spec.WF vt) (downward rightward : Int)
         rw [moveTo_in _ _ _ (by simpa using hr) (by simpa using hc)]
     · exact hg
 
+/-! ### Print -/
+
+theorem getD_map_toNat (bs : List UInt8) (i : Nat) : (bs.map UInt8.toNat).getD i 32 = (bs.getD i 32).toNat := by
+  induction bs generalizing i with
+  | nil => rfl
+  | cons b rest ih => cases i with
+    | zero => rfl
+    | succ i => simpa using ih i
+
+/-- `print` of printable ASCII text that fits in the row: exactly the cells under the text change, to the text's
+    glyphs with the current attributes; the cursor ends after the text (on the last column with the wrap pending if
+    the text ends exactly at the right edge). -/
+theorem print_effect (vt : VTState) (hw : Spec.WF vt) (hpw : vt.pendingWrap = false) (text : List UInt8)
+    (hp : ∀ b ∈ text, 0x20 ≤ b ∧ b < 0x7f) (hne : text ≠ []) (hfit : vt.col + text.length ≤ vt.cols) :
+    run (print text text.length) vt =
+    { vt with
+      grid := Spec.printGrid (text.map UInt8.toNat) vt,
+      col := if vt.col + text.length < vt.cols then vt.col + text.length else vt.cols - 1,
+      pendingWrap := decide (vt.col + text.length = vt.cols) } := by
+  have hlen : text.length ≠ 0 := by
+    cases text with
+    | nil => exact absurd rfl hne
+    | cons _ _ => simp
+  have : print text text.length = text := by simp [print, hlen]
+  rw [this, run_ascii text hp hne vt hw.ground hpw hfit]
+  apply VTState.ext <;> try rfl
+  funext l c
+  simp only [textGrid, Spec.printGrid, List.length_map, getD_map_toNat]
+
+example : print [0x68, 0x69] 2 = [0x68, 0x69] := by decide
+
+/-! ### Clear -/
+
+/-- `clear`: every cell of the screen is blank with the current background; cursor and everything else unchanged. -/
+theorem clear_effect (vt : VTState) (hw : Spec.WF vt) :
+    run clear vt = { vt with grid := Spec.clearGrid vt } := by
+  have e : clear = csi (showInt 2 ++ [0x4a]) := by decide
+  rw [e, run_csi_n vt hw.ground 2 (by decide) 0x4a fin_J, dispatch_ed]
+  apply VTState.ext <;> try rfl
+  funext l c
+  simp [VTState.ed, Spec.clearGrid, param, VTState.blank]
+
+/-! ### Erase characters -/
+
+theorem getD_replicate_space (n i : Nat) : (List.replicate n (0x20 : UInt8)).getD i 32 = 32 := by
+  simp only [List.getD_eq_getElem?_getD, List.getElem?_replicate]
+  split <;> rfl
+
+/-- A request with `count < 1` emits nothing. -/
+theorem erasech_noop (rv : Bool) (count : Int) (me : MoveEnd) (h : count < 1) : erasech rv count me = [] := by
+  simp [erasech, h]
+
+/-- `erasech`, both strategies (ECH when the pen is not reverse video, spaces when it is), every `moveend`:
+    exactly `count` cells from the cursor become blank with the current background (and the current reverse state),
+    nothing else changes, and the cursor ends where `moveend` demands.
+    `rv` is the reverse attribute of the driver's current pen, assumed equal to the terminal's.
+    Hypotheses `h64` and `hlast` exclude exactly the two defects `erase_over_64_counterexample` and
+    `erase_last_col_counterexample` below. -/
+theorem erasech_effect (vt : VTState) (hw : Spec.WF vt) (hpw : vt.pendingWrap = false) (rv : Bool) (hrv : vt.rv = rv)
+    (count : Int) (me : MoveEnd) (h1 : 1 ≤ count) (hfit : vt.col + count ≤ vt.cols)
+    (h64 : rv = true → me = .no → count ≤ 64)
+    (hlast : rv = true → me = .no → vt.col + count = vt.cols → vt.col = 0) :
+    Spec.EraseOK count me vt (run (erasech rv count me) vt) := by
+  have hg := hw.ground
+  have hrow : 0 ≤ vt.row ∧ vt.row < vt.lines := ⟨hw.row_lo, hw.row_hi⟩
+  have hcol := hw.col_lo
+  have hn1 : ¬ count < 1 := by omega
+  cases rv with
+  | false =>
+    -- ECH
+    have hech : run (if count = 1 then csi [0x58] else csi (showInt count ++ [0x58])) vt = vt.ech count := by
+      by_cases hc1 : count = 1
+      · subst hc1
+        simp only [if_true]
+        rw [run_csi_0 vt hg 0x58 fin_X, dispatch_ech, cnt_none0]
+      · simp only [hc1, if_false]
+        rw [run_csi_n vt hg count (by omega) 0x58 fin_X, dispatch_ech, cnt_toNat0 _ h1]
+    have hgrid : (vt.ech count).grid = Spec.eraseGrid count vt := by
+      funext l c
+      simp only [VTState.ech, Spec.eraseGrid, VTState.blank, Cell.blank, hrv]
+      cells_omega
+    simp only [erasech, hn1, if_false, Bool.not_false, if_true]
+    rw [run_append, hech]
+    cases me with
+    | no =>
+      simp only [reduceCtorEq, if_false, run_nil]
+      exact ⟨⟨rfl, rfl, rfl, rfl, rfl, rfl, rfl, rfl, rfl, rfl⟩, hgrid, rfl, fun _ => ⟨rfl, hpw⟩, (fun h => by cases h)⟩
+    | maybe =>
+      simp only [reduceCtorEq, if_false, run_nil]
+      exact ⟨⟨rfl, rfl, rfl, rfl, rfl, rfl, rfl, rfl, rfl, rfl⟩, hgrid, rfl, (fun h => by cases h), (fun h => by cases h)⟩
+    | yes =>
+      simp only [if_true, moveRel]
+      rw [run_append, run_signedSeq_vmove _ (by simpa using hg)]
+      simp only [if_true]
+      rw [run_signedSeq_hmove _ (by simpa using hg)]
+      have hc0 : count ≠ 0 := by omega
+      simp only [hc0, if_false]
+      refine ⟨⟨rfl, rfl, rfl, rfl, rfl, rfl, rfl, rfl, rfl, rfl⟩, hgrid, ?_, (fun h => by cases h), fun _ => ⟨?_, ?_⟩⟩
+      · simp only [VTState.moveTo, VTState.clampRow, VTState.ech]; omega
+      · intro hlt
+        refine ⟨?_, rfl⟩
+        simp only [VTState.moveTo, VTState.clampCol, VTState.ech]; omega
+      · intro heq
+        simp only [VTState.moveTo, VTState.clampCol, VTState.ech]; omega
+  | true =>
+    -- spaces
+    have hlenI : ((List.replicate count.toNat (0x20 : UInt8)).length : Int) = count := by
+      simp only [List.length_replicate]; omega
+    have hsp := run_ascii (List.replicate count.toNat 0x20)
+      (by intro b hb; rw [List.eq_of_mem_replicate hb]; decide)
+      (by intro h; have := congrArg List.length h; simp only [List.length_replicate, List.length_nil] at this; omega)
+      vt hg hpw (by rw [hlenI]; exact hfit)
+    rw [hlenI] at hsp
+    have hgrid : textGrid (List.replicate count.toNat 0x20) vt = Spec.eraseGrid count vt := by
+      funext l c
+      simp only [textGrid, Spec.eraseGrid, hlenI, getD_replicate_space]
+      rfl
+    simp only [erasech, hn1, if_false, Bool.not_true, Bool.false_eq_true]
+    rw [run_append, hsp, hgrid]
+    cases me with
+    | yes =>
+      simp only [reduceCtorEq, if_false, run_nil]
+      refine ⟨⟨rfl, rfl, rfl, rfl, rfl, rfl, rfl, rfl, rfl, rfl⟩, rfl, rfl, (fun h => by cases h), fun _ => ⟨?_, ?_⟩⟩
+      · intro hlt
+        simp only [hlt, if_true, true_and]
+        apply decide_eq_false; omega
+      · intro heq
+        simp only []
+        rw [if_neg (by omega)]
+    | maybe =>
+      simp only [reduceCtorEq, if_false, run_nil]
+      exact ⟨⟨rfl, rfl, rfl, rfl, rfl, rfl, rfl, rfl, rfl, rfl⟩, rfl, rfl, (fun h => by cases h), (fun h => by cases h)⟩
+    | no =>
+      have hc64 : count ≤ 64 := h64 rfl rfl
+      have hrem : eraseRemainder count = count := by unfold eraseRemainder; omega
+      simp only [if_true, moveRel, hrem]
+      rw [run_append, run_signedSeq_vmove _ (by simpa using hg)]
+      simp only [if_true]
+      rw [run_signedSeq_hmove _ (by simpa using hg)]
+      have hc0 : ¬ (-count = 0) := by omega
+      simp only [hc0, if_false]
+      refine ⟨⟨rfl, rfl, rfl, rfl, rfl, rfl, rfl, rfl, rfl, rfl⟩, rfl, ?_, fun _ => ⟨?_, rfl⟩, (fun h => by cases h)⟩
+      · simp only [VTState.moveTo, VTState.clampRow]; omega
+      · by_cases hlt : vt.col + count < vt.cols
+        · simp only [VTState.moveTo, VTState.clampCol, hlt, if_true]; omega
+        · have heq : vt.col + count = vt.cols := by omega
+          have h0 := hlast rfl rfl heq
+          simp only [VTState.moveTo, VTState.clampCol, hlt, if_false]; omega
+
 end Tickit.Props.C09
